@@ -110,6 +110,8 @@ def main():
             if a.expect_pass:
                 status = "QUIET" if rc == 0 else status
                 bad += status != "QUIET"
+            elif status == "MISSED" and s.get("outside_property"):
+                status = "OUTSIDE-PROPERTY"  # the edit only changes behaviour the property does not talk about (see the spec)
             elif status == "MISSED" and s.get("equivalent"):
                 status = "EQUIVALENT"  # argued in the spec: the edit cannot change any value the property talks about
             elif status != "DETECTED":
